@@ -230,6 +230,11 @@ pub enum Op {
     /// load another voice set into an existing engine: `condition.load_model(&vs); voices = vs`
     Reload { e: usize, voices: Vec<VoiceRef> },
     DropEngine { e: usize },
+    /// take the engine apart and put it together again from its public parts:
+    /// how 0: `Engine::new(e.voices.clone(), e.condition.clone())` (the condition was customised
+    /// *before* `Engine::new`, as a front end that maps command-line options onto a Condition does);
+    /// how 1: struct literal `Engine { condition, voices }`; how 2: `e.condition = e.condition.clone()`
+    Rebuild { e: usize, how: u8 },
     Set { e: usize, s: Setter },
     SetW { e: usize, which: Which, w: Vec<f64> },
     /// C19: VoiceSet::new(voices) where voice `mutate.0` has metadata field `mutate.1` changed
@@ -278,6 +283,7 @@ impl TOp {
             Op::CloneCond { src, dst } => format!("t{} clonecond e{} e{}", t, src, dst),
             Op::Reload { e, voices } => format!("t{} reload e{} {}", t, e, vrefs(voices)),
             Op::DropEngine { e } => format!("t{} dropengine e{}", t, e),
+            Op::Rebuild { e, how } => format!("t{} rebuild e{} {}", t, e, how),
             Op::Set { e, s } => format!("t{} set e{} {}", t, e, s.to_text()),
             Op::SetW { e, which, w } => {
                 let ws: Vec<String> = w.iter().map(|x| fx(*x)).collect();
@@ -320,6 +326,7 @@ impl TOp {
             "clonecond" => Op::CloneCond { src: slot(w.get(2)?, 'e')?, dst: slot(w.get(3)?, 'e')? },
             "reload" => Op::Reload { e: slot(w.get(2)?, 'e')?, voices: parse_vrefs(w.get(3)?)? },
             "dropengine" => Op::DropEngine { e: slot(w.get(2)?, 'e')? },
+            "rebuild" => Op::Rebuild { e: slot(w.get(2)?, 'e')?, how: w.get(3)?.parse().ok()? },
             "set" => Op::Set { e: slot(w.get(2)?, 'e')?, s: Setter::from_words(&w[3..])? },
             "setw" => {
                 let ws = *w.get(4)?;
@@ -372,6 +379,7 @@ impl TOp {
             Op::CloneCond { .. } => "clonecond",
             Op::Reload { .. } => "reload",
             Op::DropEngine { .. } => "dropengine",
+            Op::Rebuild { .. } => "rebuild",
             Op::Set { .. } => "set",
             Op::SetW { .. } => "setw",
             Op::VsNew { .. } => "vsnew",
